@@ -30,11 +30,26 @@ def _days_from_civil(y, m, d):
     return era * 146097 + doe - 719468
 
 
+CIVIL_DAY = z3.Function('civil_day_number', z3.IntSort(), z3.IntSort(), z3.IntSort(), z3.IntSort())
+
+
 @model('datetime.datetime')
 def _datetime(L, year, month=1, day=1, hour=0, minute=0, second=0, microsecond=0, tzinfo=None):
     args = [year, month, day, hour, minute, second, microsecond]
     if any(is_sym(a) for a in args):
-        raise Unsupported('datetime() with symbolic fields')
+        # symbolic civil fields: the day number is an uninterpreted function of (year, month, day); CPython rejects
+        # out-of-range fields with ValueError
+        y, mo, d, h, mi, sec, us_ = (to_z3(a) for a in args)
+        if any(a.sort() != z3.IntSort() for a in (y, mo, d, h, mi, sec, us_)):
+            raise PyRaise(builtin_exc('TypeError'), 'integer argument expected')
+        leap = z3.And(y % 4 == 0, z3.Or(y % 100 != 0, y % 400 == 0))
+        dim = z3.If(z3.Or(mo == 4, mo == 6, mo == 9, mo == 11), 30, z3.If(mo == 2, z3.If(leap, 29, 28), 31))
+        ok = z3.And(y >= 1, y <= 9999, mo >= 1, mo <= 12, d >= 1, d <= dim, h >= 0, h <= 23, mi >= 0, mi <= 59,
+                    sec >= 0, sec <= 59, us_ >= 0, us_ <= 999999)
+        if L.ctx.branch(z3.Not(ok)):
+            raise PyRaise(builtin_exc('ValueError'), 'datetime field out of range')
+        us = ((CIVIL_DAY(y, mo, d) * 24 + h) * 60 + mi) * 60 * US_PER_S + sec * US_PER_S + us_
+        return mk_dt(us, _tz(tzinfo))
     days = _days_from_civil(int(year), int(month), int(day))
     us = ((days * 24 + hour) * 60 + minute) * 60 * US_PER_S + second * US_PER_S + microsecond
     return mk_dt(us, _tz(tzinfo))
